@@ -275,6 +275,13 @@ class Gen:
         self.spend()
         if P == NIL:
             self.tags.add("nilary_call")
+            if self.chance(0.4):
+                # the argument flows in with a static type that CONTAINS nil while the value is (mostly) not nil:
+                # a nilary function is always called with nil, whatever flows (seeded change C02-2: the guard that
+                # swaps the flowing value for nil tested contains_nil instead of is_nil)
+                self.tags.add("nilary_maybe_nil_arg")
+                blk = A.Block(A.Branch([A.Chain(A.Match(A.PInt(0)))], [A.Chain(A.NIL)]), A.Branch([A.Chain(A.Ripple())]))
+                return [A.Int(self.pick([0, 5, 5, 7])), blk, A.Var(fname)]
             if self.chance(0.5):
                 return [A.Var(fname)]           # ignores whatever flows in
             return self.gen_any(sc, flow, d + 1)[0] + [A.Var(fname)]
@@ -942,6 +949,18 @@ class Gen:
         want = R if R is not None else self.pick([INT, ANY, ANY])
         if self.chance(0.06) and R is None:
             return A.Fn(ast_type(P)), FN(P, P)          # identity function `#T`
+        if P == NIL and R is None and self.chance(0.5):
+            # a nilary function whose body READS its parameter (always nil): `$`, `[~, k]`, a nil test
+            self.tags.add("nilary_reads_parameter")
+            k = self.small_int()
+            form = self.pick(["param", "tuple", "test"])
+            if form == "param":
+                return A.Fn(None, A.Expr(A.Branch([A.Chain(A.Tup("", A.Field(A.Chain(A.Param()))))]))), FN(NIL, TT("", (("", NIL),)))
+            if form == "tuple":
+                return (A.Fn(None, A.Expr(A.Branch([A.Chain(A.Tup("", A.Field(A.Chain(A.Ripple())), A.Field(A.Chain(A.Int(k)))))]))),
+                        FN(NIL, TT("", (("", NIL), ("", INT)))))
+            return (A.Fn(None, A.Expr(A.Branch([A.Chain(A.Block(A.Branch([A.Chain(A.Match(A.PNIL))], [A.Chain(A.Int(1))]),
+                                                                  A.Branch([A.Chain(A.Int(2))])))]))), FN(NIL, INT))
         fsc = Sc(sc.vars, param=P, selfT=None, infn=True)
         if any(t[0] != "fn" for t in sc.vars.values()):
             self.tags.add("closure_scope")
@@ -1150,6 +1169,11 @@ class Gen:
                 P = T[1]
                 if P == NIL:
                     fields.append(A.Field(A.Chain(A.Var(n))))
+                    if self.chance(0.6):
+                        # ... and once more with a value flowing in whose static type contains nil
+                        self.tags.add("nilary_maybe_nil_arg")
+                        blk = A.Block(A.Branch([A.Chain(A.Match(A.PInt(0)))], [A.Chain(A.NIL)]), A.Branch([A.Chain(A.Ripple())]))
+                        fields.append(A.Field(A.Chain(A.Int(self.pick([0, 5, 7])), blk, A.Var(n))))
                     continue
                 k = self.pick([1, 2, 2, 3])
                 if k > 1:
